@@ -49,6 +49,7 @@ type loopInfo struct {
 
 type Frame struct {
 	blockChans []string // channels of the blocking operation whose "site block" conditions are being evaluated
+	atExit     bool     // postconditions are being evaluated over the merged returns
 
 	vc       *VC
 	p        *Program
